@@ -1388,6 +1388,8 @@ class Sym:
                     rp_ = self.region_poly(t)
                     if rp_ is not None:
                         return self.rp_name(rp_)          # a sub-range of a region of the input is a region
+            if short(t[1]) in ("<impl [T]>::iter", "Vec::<T, A>::iter") and len(t[2]) == 1 and self.tail_from(t[2][0]) is not None:
+                return self.iter_source_name(t)
             if short(t[1]) == "Iterator::map" and len(t[2]) == 2 and chunk_len(self, t[2][0]) is not None:
                 cl_ = strip(t[2][1])
                 ci_ = closure_info(self.prog, self.an, cl_) if cl_[0] == "aggr" else None
@@ -1902,6 +1904,89 @@ class Sym:
             return False
         return walk_json(blk)
 
+    def emptiness_rel(self, x, tr):
+        """`W.iter().skip(D).map(f).collect::<Vec<_>>().is_empty()` is `len(W) <= D` (the adapters in between keep the
+        number of elements): the same atom as the guard `if W.len() <= D` written before building the vector"""
+        x = strip(x)
+        seen_skip = None
+        for _ in range(8):
+            while x[0] in ("ref", "deref", "mut"):
+                x = x[1] if x[0] != "mut" else x[2]
+            if x[0] == "call" and short(x[1]) in ("Iterator::collect", "Iterator::map", "Iterator::copied", "Iterator::cloned", "IntoIterator::into_iter",
+                                                   "Iterator::enumerate", "Iterator::rev") and x[2]:
+                x = x[2][0]
+                continue
+            if x[0] == "call" and short(x[1]) == "Iterator::skip" and len(x[2]) == 2 and seen_skip is None:
+                seen_skip = x[2][1]
+                x = x[2][0]
+                continue
+            break
+        w = d_ = None
+        if seen_skip is not None and x[0] == "call" and short(x[1]) in ("<impl [T]>::iter", "Vec::<T, A>::iter") and len(x[2]) == 1:
+            w, d_ = x[2][0], seen_skip
+        elif seen_skip is None:
+            if x[0] == "call" and short(x[1]) in ("<impl [T]>::iter", "Vec::<T, A>::iter") and len(x[2]) == 1:
+                x = x[2][0]
+            tf = self.tail_from(x)
+            if tf is not None:
+                w, d_ = tf
+        if w is None:
+            return None
+        pd = self.poly(d_)
+        if pd is None:
+            return None
+        ln = Poly.sym("len(%s)" % self.arg_name(w))
+        self.sym_box.setdefault("len(%s)" % self.arg_name(w), (0, (1 << 63) - 1))
+        return [rel_atom(pd - ln, ">=")] if tr else [rel_atom(ln - pd - Poly.const(1), ">=")]
+
+    def tail_from(self, x):
+        """(W, D) when x is the tail of a slice from index D on: `W.get(D..).unwrap_or(&[])` (empty when D > len) or
+        `&W[D..]` (same elements; the range check of the latter is a panic obligation, not part of the value)"""
+        x = strip(x)
+        while x[0] == "cast" and "Unsize" in str(x[1]):
+            x = strip(x[2])
+        if x[0] == "call" and short(x[1]) == "Option::<T>::unwrap_or" and len(x[2]) == 2:
+            g, dflt = strip(x[2][0]), strip(x[2][1])
+            while dflt[0] == "cast" and "Unsize" in str(dflt[1]):
+                dflt = strip(dflt[2])
+            empty = (dflt[0] in ("mem", "bytes") and len(dflt[1]) == 0) or (dflt[0] == "aggr" and dflt[1] == "array" and not dflt[2])
+            if empty and g[0] == "call" and short(g[1]) == "<impl [T]>::get" and len(g[2]) == 2:
+                r = strip(g[2][1])
+                if r[0] == "aggr" and r[1].endswith("RangeFrom::RangeFrom") and len(r[2]) == 1:
+                    return g[2][0], r[2][0]
+        if x[0] == "call" and short(x[1]) == "Index::index" and len(x[2]) == 2:
+            r = strip(x[2][1])
+            if r[0] == "aggr" and r[1].endswith("RangeFrom::RangeFrom") and len(r[2]) == 1 and self.ev.region(x) is None and self.region_poly(x) is None:
+                return x[2][0], r[2][0]
+        return None
+
+    def iter_source_name(self, src):
+        """canonical name of what a loop / adapter chain iterates: an iterator expression as it is, a slice or Vec as
+        `<impl [T]>::iter(s)`, the tail of a slice from D on as `Iterator::skip(<impl [T]>::iter(W),D)`"""
+        x = src
+        while x[0] in ("ref", "deref", "mut"):
+            x = x[1] if x[0] != "mut" else x[2]
+        while x[0] == "call" and short(x[1]) == "IntoIterator::into_iter" and len(x[2]) == 1:
+            x = x[2][0]
+            while x[0] in ("ref", "deref"):
+                x = x[1]
+        inner = x
+        if inner[0] == "call" and short(inner[1]) in ("<impl [T]>::iter", "Vec::<T, A>::iter") and len(inner[2]) == 1:
+            inner = inner[2][0]
+            is_iter = False
+        else:
+            is_iter = inner[0] == "call" and (short(inner[1]).startswith("Iterator::") or short(inner[1]).endswith(("::chunks_exact", "::windows", "::chunks")))
+        if not is_iter:
+            tf = self.tail_from(inner)
+            if tf is not None:
+                return "Iterator::skip(<impl [T]>::iter(%s),%s)" % (self.arg_name(tf[0]), self.arg_name(tf[1]))
+            if x is not inner:
+                return "<impl [T]>::iter(%s)" % self.arg_name(inner)
+            ty = self.type_of(inner)
+            if ty is not None and (ty.get("k") in ("slice", "array") or (ty.get("k") == "adt" and ty.get("p", "").endswith("::Vec"))):
+                return "<impl [T]>::iter(%s)" % self.arg_name(inner)
+        return self.arg_name(x)
+
     def push_loop_as_map(self, pbb, pterm):
         """`let mut v = Vec::new(); for x in IT { v.push(f(x)) }` (one push, on every iteration of a loop over IT, the
         pushed value a function of the loop's element) is `IT.map(|x| f(x)).collect()`: the same canonical name"""
@@ -1955,7 +2040,7 @@ class Sym:
         while src[0] == "call" and short(src[1]) == "IntoIterator::into_iter" and len(src[2]) == 1:
             src = unmut(src[2][0])
         try:
-            return "Iterator::collect(Iterator::map(%s,|x| %s))" % (self.arg_name(src), closure_pred_name(self, None, whole_chunk(v2, chunk_len(self, src))))
+            return "Iterator::collect(Iterator::map(%s,|x| %s))" % (self.iter_source_name(it), closure_pred_name(self, None, whole_chunk(v2, chunk_len(self, src))))
         except Exception:
             return None
 
@@ -2285,6 +2370,9 @@ class Sym:
             return [("ok" if ok else "err", self.name(inner), inner)]
         if d[0] == "call" and len(d[2]) == 1 and short(d[1]) in ("Vec::<T, A>::is_empty", "<impl [T]>::is_empty", "<impl str>::is_empty", "String::is_empty"):
             # one spelling for emptiness tests (also produced from `len() > 0`, `len() == 0`: accept.simplify)
+            er_ = self.emptiness_rel(d[2][0], tr)
+            if er_ is not None:
+                return er_
             return [("pred", "is_empty(%s)" % self.arg_name(d[2][0]), tr)]
         if d[0] == "call":
             return [("pred", self.name(d), tr)]
